@@ -56,6 +56,51 @@ def exhaustive_cases():
     return out
 
 
+def gen_pipe_case(rng):
+    ncol = rng.randint(2, 6)
+    names = rng.sample(["f%d" % i for i in range(12)] + ["é", "a b", "x-y", "n0"], ncol)
+    mode = rng.choice(["Constant", "max-value-coverage", "MI-numba-3mr"])
+    if mode == "MI-numba-3mr" and ncol >= 3 and rng.random() < 0.7:
+        names[-1] = names[0] + " AND_REL " + names[1]
+    label = rng.choice([n for n in names if " AND_REL " not in n])
+    target_only = rng.choice(["True", "False"])
+    ncand_max = ncol * (ncol + 1) // 2 + ncol
+    caps = [rng.randint(0, ncand_max + 2) for _ in range(rng.randint(1, 8))]
+    return {"columns": names, "label": label, "heuristic": mode, "target_only": target_only, "caps": caps,
+            "nrows": 12, "seed": rng.randint(0, 10 ** 6)}
+
+
+def pipe_encode(case, res):
+    """Evaluated pairs are read off the emitted rows (both orientations per evaluated pair, once for Constant)."""
+    ids = {}
+
+    def kid(t):
+        t = tuple(t)
+        if t not in ids:
+            ids[t] = len(ids)
+        return ids[t]
+    ops, obs = [], []
+    per_eval = 1 if case["heuristic"] == "Constant" else 2
+    for o in res["obs"]:
+        L = [tuple(c) for c in o["cands"]]
+        by_unordered = {}
+        for c in L:
+            by_unordered.setdefault(frozenset(c), c)
+        cnt = {}
+        for a, b, _s in o["rows"]:
+            cnt[frozenset((a, b))] = cnt.get(frozenset((a, b)), 0) + 1
+        sel = []
+        for u, n in cnt.items():
+            if n % per_eval:
+                return None, None, "rows of pair %s do not come in both orientations" % sorted(u)
+            key = by_unordered.get(u, tuple(sorted(u)) if len(u) == 2 else tuple(u) * 2)
+            sel += [kid(key)] * (n // per_eval)
+        ops.append("(%s%%nat, %s%%Z)" % (vlib.nlist([kid(c) for c in L]), vlib.zlit(o["cap_after"])))
+        cn = "[" + "; ".join("(%d, %d)" % (kid(k), v) for k, v in o["counter"]) + "]"
+        obs.append("(%s%%nat, %s%%nat)" % (vlib.nlist(sel), cn))
+    return "[" + "; ".join(ops) + "]", "[" + "; ".join(obs) + "]", None
+
+
 def load_corpus(pid):
     d = os.path.join(vlib.VERIF, "corpus", pid)
     out = []
@@ -102,7 +147,14 @@ def check(run, replay):
             cases.append(gen_case(run.rng, stable=(run.rng.random() < 0.7)))
         if run.tier == "thorough":
             cases.extend(exhaustive_cases())
-    res = vlib.run_impl("impl_c07.py", {"cases": cases})["results"]
+    if replay is not None and replay["case"].get("kind") == "pipe":
+        pipe_cases, cases = [replay["case"]], []
+    elif replay is not None:
+        pipe_cases = []
+    else:
+        pipe_cases = [gen_pipe_case(run.rng) for _ in range(60 if run.tier == "quick" else 400)]
+    both = vlib.run_impl("impl_c07.py", {"cases": cases, "pipe_cases": pipe_cases})
+    res = both["results"]
 
     header = ("From Coq Require Import List ZArith.\nFrom Outrank Require Import Pipeline.Sampler.\n"
               "Import ListNotations.\nOpen Scope Z_scope.")
@@ -127,6 +179,34 @@ def check(run, replay):
                      "if %s then fairb (%s)%%nat (last (map snd obs) []) else true, run [] ops)" % (ops, obs, stable, L0))
         idx.append(i)
     vals = vlib.coq_eval("C07", header, exprs, shard=300)
+    # pipeline level: mixed_rank_graph over batches; evaluated pairs are the ones whose rows were emitted
+    pexprs, pidx = [], []
+    for i, (c, r) in enumerate(zip(pipe_cases, both["pipe"])):
+        c["kind"] = "pipe"
+        run.count_case(c, any(0 < o["cap_after"] < len(o["cands"]) for o in r["obs"]))
+        if not r["ok"]:
+            run.violation("counterexample", "impl-raises (mixed_rank_graph)", case=c, impl=r.get("tb", r["error"]),
+                          clause="call terminates normally")
+            continue
+        ops, obs, err = pipe_encode(c, r)
+        if err:
+            run.violation("counterexample", "evaluated pairs readable from rows", case=c, impl=err, clause=err)
+            continue
+        exp = sorted(str(tuple(k)) for k, _ in r["obs"][-1]["counter"]) if r["obs"] else []
+        if exp != r["export_keys"]:
+            run.violation("counterexample", "export keys", case=c, impl=r["export_keys"], model=exp,
+                          clause="reported per-combination counts are keyed by the combination")
+        pexprs.append("let ops := %s in let obs := %s in (steps_ok [] ops obs)" % (ops, obs))
+        pidx.append(i)
+    pvals = vlib.coq_eval("C07p", header, pexprs, shard=300) if pexprs else []
+    for i, steps in zip(pidx, pvals):
+        if not all(steps):
+            k = steps.index(False)
+            c = dict(pipe_cases[i])
+            c["caps"] = c["caps"][:k + 1]
+            run.violation("counterexample", "C07_checker (valid_stepb) on mixed_rank_graph batches",
+                          case=c, impl=both["pipe"][i]["obs"][k], clause="valid_step fails at batch %d: evaluated pairs / counter" % k)
+    run.cov["pipeline_histories_checked"] = len(pidx)
     run.oblige("correspondence:valid_step on implementation histories", True)
     ncmp = 0
     ndiff_model = 0
